@@ -143,7 +143,9 @@ Record ginv (calls : list (str * str)) (g : graph) : Prop := {
   gi_call : forall x y, In (x, y) calls -> x <> y ->
     exists i j, named g i x /\ named g j y /\ In (i, j) (g_edges g);
   gi_self : forall x, In (x, x) calls ->
-    exists i h, named g i x /\ hidden g h /\ In (i, h) (g_edges g) /\ In (h, i) (g_edges g)
+    exists i h, named g i x /\ hidden g h /\ In (i, h) (g_edges g) /\ In (h, i) (g_edges g);
+  (** a hidden node is created after the node it belongs to *)
+  gi_hlt : forall h n, hidden g h -> In (h, n) (g_edges g) -> n < h
 }.
 
 Lemma ginv_g0 : ginv [] g0.
@@ -156,6 +158,7 @@ Proof.
   - intros a b [].
   - intros x y [].
   - intros x [].
+  - intros h n _ [].
 Qed.
 
 Lemma named_hidden_excl g i x : named g i x -> hidden g i -> False.
@@ -184,7 +187,7 @@ Proof.
     { intros j H. unfold hidden, g' in H. cbn [g_nodes] in H. apply nth_error_snoc_inv in H.
       destruct H as [[_ H]|[_ H]]; [exact H | discriminate]. }
     split; [|split; [|exact Hn]].
-    + destruct I as [Iwf Ind Iu Ihid Iedge Icall Iself]. split; try (unfold g' at 1; cbn [g_edges g_nodes]).
+    + destruct I as [Iwf Ind Iu Ihid Iedge Icall Iself Ihlt]. split; try (unfold g' at 1; cbn [g_edges g_nodes]).
       * intros a b H. cbn [g_edges g_nodes] in *. apply Iwf in H. rewrite app_length. cbn [length]. lia.
       * exact Ind.
       * apply uniq_names_snoc_named; assumption.
@@ -198,6 +201,7 @@ Proof.
         exists i, j. split; [apply Hn; exact H1|]. split; [apply Hn; exact H2 | exact H3].
       * intros y H. destruct (Iself y H) as (i & h & H1 & H2 & H3).
         exists i, h. split; [apply Hn; exact H1|]. split; [apply Hh; exact H2 | exact H3].
+      * intros h n Hhid H. apply Hh' in Hhid. exact (Ihlt h n Hhid H).
     + unfold named, g'. cbn [g_nodes]. apply nth_error_snoc_new.
 Qed.
 
@@ -205,7 +209,7 @@ Qed.
 Lemma set_edge_inv calls g f t x y :
   ginv calls g -> named g f x -> named g t y -> x <> y -> ginv (calls ++ [(x, y)]) (set_edge (f, t) g).
 Proof.
-  intros [Iwf Ind Iu Ihid Iedge Icall Iself] Hf Ht Hne.
+  intros [Iwf Ind Iu Ihid Iedge Icall Iself Ihlt] Hf Ht Hne.
   assert (Hn : forall j z, named (set_edge (f, t) g) j z <-> named g j z).
   { intros j z. unfold named. rewrite set_edge_nodes. tauto. }
   assert (Hh : forall j, hidden (set_edge (f, t) g) j <-> hidden g j).
@@ -242,6 +246,9 @@ Proof.
       exists i, h. split; [apply Hn; exact H1|]. split; [apply Hh; exact H2|].
       split; apply set_edge_In; left; assumption.
     + injection H as <- <-. congruence.
+  - intros h n Hhid H. apply Hh in Hhid. apply set_edge_In in H. destruct H as [H|H].
+    + exact (Ihlt h n Hhid H).
+    + injection H as -> ->. nh.
 Qed.
 
 (** *** step C: the self edge through a fresh hidden node *)
@@ -252,7 +259,7 @@ Lemma self_edge_inv calls g f x :
   ginv (calls ++ [(x, x)])
        (set_edge (length (g_nodes g), f) (set_edge (f, length (g_nodes g)) (add_hidden g))).
 Proof.
-  intros [Iwf Ind Iu Ihid Iedge Icall Iself] Hf.
+  intros [Iwf Ind Iu Ihid Iedge Icall Iself Ihlt] Hf.
   set (tmp := length (g_nodes g)).
   set (g' := set_edge (tmp, f) (set_edge (f, tmp) (add_hidden g))).
   assert (Hnodes : g_nodes g' = g_nodes g ++ [None]).
@@ -317,6 +324,14 @@ Proof.
       split; apply HE; left; assumption.
     + injection H as <-. exists f, tmp. split; [apply Hn; exact Hf|]. split; [exact Htmp|].
       split; apply HE; right; [left | right]; reflexivity.
+  - intros h n Hhid H. unfold hidden in Hhid. rewrite Hnodes in Hhid. apply nth_error_snoc_inv in Hhid.
+    apply HE in H. destruct Hhid as [[Hlt Hhid]|[-> _]]; destruct H as [H|[H|H]].
+    + exact (Ihlt h n Hhid H).
+    + injection H as -> ->. nh.
+    + injection H as -> ->. fold tmp in Hlt. lia.
+    + apply Hold in H. fold tmp in H. lia.
+    + injection H as H ->. fold tmp in H. lia.
+    + injection H as ->. fold tmp. exact Hflt.
 Qed.
 
 (** *** one call *)
@@ -367,6 +382,11 @@ Theorem build_hidden calls h :
               In (n, h) (g_edges g) /\ In (h, n) (g_edges g) /\
               (forall a, In (a, h) (g_edges g) -> a = n) /\ (forall b, In (h, b) (g_edges g) -> b = n).
 Proof. intros g. apply (gi_hid _ _ (build_ginv calls)). Qed.
+
+Theorem build_hidden_after calls h n :
+  let g := build calls g0 in
+  nth_error (g_nodes g) h = Some None -> In (h, n) (g_edges g) -> n < h.
+Proof. intros g. apply (gi_hlt _ _ (build_ginv calls)). Qed.
 
 (** every node is named or hidden *)
 Lemma node_cases g a : a < length (g_nodes g) -> (exists x, named g a x) \/ hidden g a.
@@ -1046,3 +1066,416 @@ Qed.
 
 Print Assumptions dep_calls_dedge.
 Print Assumptions service_reach.
+
+(** * Part 3 — the scope rule *)
+
+Lemma resource_of_service b : resource_of (id_service b) = b.
+Proof.
+  unfold resource_of. change (drop_to_paren (id_service b)) with (b ++ [")"%char]). apply removelast_last.
+Qed.
+Lemma resource_of_param b : resource_of (id_param b) = b.
+Proof.
+  unfold resource_of. change (drop_to_paren (id_param b)) with (b ++ [")"%char]). apply removelast_last.
+Qed.
+Lemma resource_of_tag b : resource_of (id_tag b) = b.
+Proof.
+  unfold resource_of. change (drop_to_paren (id_tag b)) with (b ++ [")"%char]). apply removelast_last.
+Qed.
+Lemma resource_of_decorate b : resource_of (id_decorate b) = b.
+Proof.
+  unfold resource_of. change (drop_to_paren (id_decorate b)) with (b ++ [")"%char]). apply removelast_last.
+Qed.
+
+Lemma spath_target calls x y : spath calls x y -> exists z, In (z, y) calls.
+Proof. intros H. induction H as [x y H|x z y _ _ IH]; [exists x; exact H | exact IH]. Qed.
+
+(** a reachable node whose id starts with "service(" is a service node *)
+Lemma service_id_target o x y : spath (dep_calls o) x y -> is_service_id y = true -> exists b, y = id_service b.
+Proof.
+  intros H Hs. apply spath_target in H. destruct H as (z & H). apply dep_calls_dedge in H.
+  destruct H as [a t H|a t H|a b' H|a t H|a p' H|j t H|j b' H|j t H|j p' H|p' q H];
+    try (exfalso; discriminate Hs); eexists; reflexivity.
+Qed.
+
+Definition scope_msg (a b : str) : str :=
+  s "output.ValidateServicesScopes: " ++ quote a ++ s ": service is shared, but dependant " ++ quote b ++ s " is contextual".
+
+Lemma scope_errors_leaf o g sv e : In e (scope_errors_of o g sv) ->
+  os_scope sv = OScShared /\
+  exists id, In id (deps_of g (id_service (os_name sv))) /\ is_service_id id = true /\
+             is_contextual o (resource_of id) = true /\
+             e = leaf (quote (os_name sv) ++ s ": service is shared, but dependant " ++ quote (resource_of id) ++ s " is contextual").
+Proof.
+  unfold scope_errors_of. destruct (os_scope sv); try (intros []).
+  intros H. apply in_map_iff in H. destruct H as (id & <- & H). apply filter_In in H. destruct H as [H1 H2].
+  apply andb_true_iff in H2. destruct H2 as [H2 H3]. split; [reflexivity|]. exists id. auto.
+Qed.
+
+(** the errors of [validate_scopes], exactly. [a <> b] comes from [deps_of] excluding the node itself: a shared
+    service that is on a cycle never reports itself (and it is not contextual anyway when names are unique). *)
+Theorem validate_scopes_spec o m :
+  In m (collect (validate_scopes o)) <->
+  exists sa b, In sa (o_services o) /\ os_scope sa = OScShared /\ os_name sa <> b /\
+               clos_trans str (svc_dep o) (os_name sa) b /\ is_contextual o b = true /\
+               m = scope_msg (os_name sa) b.
+Proof.
+  unfold validate_scopes. rewrite collect_gprefix, in_map_iff. split.
+  - intros (x & <- & H). apply in_flat_map in H. destruct H as (e & He & Hx).
+    apply in_flat_map in He. destruct He as (sv & Hsv & He). apply sort_by_In in Hsv.
+    apply scope_errors_leaf in He. destruct He as (Hsc & id & Hid & Hs & Hc & ->).
+    destruct Hx as [<-|[]].
+    apply (deps_of_inv (dep_calls o)) in Hid; [|apply build_graph_ginv]. destruct Hid as [Hne Hp].
+    destruct (service_id_target o _ _ Hp Hs) as (b & ->). rewrite resource_of_service in *.
+    exists sv, b. split; [exact Hsv|]. split; [exact Hsc|]. split; [congruence|].
+    split; [apply service_reach; exact Hp|]. split; [exact Hc | reflexivity].
+  - intros (sa & b & Hsa & Hsc & Hne & Hp & Hc & ->).
+    exists (quote (os_name sa) ++ s ": service is shared, but dependant " ++ quote b ++ s " is contextual").
+    split; [reflexivity|]. apply in_flat_map.
+    exists (leaf (quote (os_name sa) ++ s ": service is shared, but dependant " ++ quote b ++ s " is contextual")).
+    split; [|left; reflexivity]. apply in_flat_map. exists sa. split; [apply sort_by_In; exact Hsa|].
+    unfold scope_errors_of. rewrite Hsc. apply in_map_iff. exists (id_service b).
+    rewrite resource_of_service. split; [reflexivity|]. apply filter_In. split.
+    + apply (deps_of_inv (dep_calls o)); [apply build_graph_ginv|]. split.
+      * intros H. apply id_service_inj in H. congruence.
+      * apply service_reach. exact Hp.
+    + rewrite resource_of_service, Hc. reflexivity.
+Qed.
+
+Lemma gprefix_leaves_none p l : (forall e, In e l -> exists m, e = leaf m) ->
+  (gprefix p l = None <-> forall m, ~ In m (collect (gprefix p l))).
+Proof.
+  intros Hl. rewrite gprefix_none. split.
+  - intros H m Hm. rewrite collect_gprefix in Hm. apply in_map_iff in Hm. destruct Hm as (x & _ & Hx).
+    apply in_flat_map in Hx. destruct Hx as (e & He & Hx). rewrite (H e He) in Hx. destruct Hx.
+  - intros H e He. exfalso. destruct (Hl e He) as (m & ->). apply (H (p ++ m)).
+    rewrite collect_gprefix. apply in_map. apply in_flat_map. exists (leaf m). split; [exact He | left; reflexivity].
+Qed.
+
+Lemma validate_scopes_none_collect o : validate_scopes o = None <-> forall m, ~ In m (collect (validate_scopes o)).
+Proof.
+  unfold validate_scopes. apply gprefix_leaves_none.
+  intros e He. apply in_flat_map in He. destruct He as (sv & _ & He). apply scope_errors_leaf in He.
+  destruct He as (_ & id & _ & _ & _ & ->). eexists. reflexivity.
+Qed.
+
+(** C05, build-time half: the validator accepts iff no shared service transitively depends on a different
+    contextual service *)
+Theorem validate_scopes_none o :
+  validate_scopes o = None <->
+  forall sa b, In sa (o_services o) -> os_scope sa = OScShared -> os_name sa <> b ->
+               clos_trans str (svc_dep o) (os_name sa) b -> is_contextual o b = false.
+Proof.
+  rewrite validate_scopes_none_collect. split.
+  - intros H sa b H1 H2 H3 H4. destruct (is_contextual o b) eqn:E; [|reflexivity]. exfalso.
+    apply (H (scope_msg (os_name sa) b)). apply validate_scopes_spec. exists sa, b. auto 10.
+  - intros H m Hm. apply validate_scopes_spec in Hm. destruct Hm as (sa & b & H1 & H2 & H3 & H4 & H5 & _).
+    rewrite (H sa b H1 H2 H3 H4) in H5. discriminate.
+Qed.
+
+(** with unique service names, [is_contextual] is what it says *)
+Lemma NoDup_map_inj (A B : Type) (f : A -> B) (l : list A) a b :
+  NoDup (map f l) -> In a l -> In b l -> f a = f b -> a = b.
+Proof.
+  induction l as [|c l IH]; intros Hnd Ha Hb Hf; [destruct Ha|].
+  cbn [map] in Hnd. inversion Hnd as [|? ? Hni Hnd']; subst.
+  destruct Ha as [->|Ha], Hb as [->|Hb].
+  - reflexivity.
+  - exfalso. apply Hni. rewrite Hf. apply in_map. exact Hb.
+  - exfalso. apply Hni. rewrite <- Hf. apply in_map. exact Ha.
+  - apply IH; assumption.
+Qed.
+
+Lemma find_service_iff o b sb : NoDup (map os_name (o_services o)) ->
+  (find_service o b = Some sb <-> In sb (o_services o) /\ os_name sb = b).
+Proof.
+  intros Hnd. unfold find_service. split.
+  - intros H. apply find_some in H. destruct H as [H1 H2]. apply in_rev in H1. apply str_eqb_eq in H2. auto.
+  - intros [H1 H2].
+    destruct (find (fun sv => str_eqb (os_name sv) b) (rev (o_services o))) as [sv|] eqn:E.
+    + apply find_some in E. destruct E as [E1 E2]. apply in_rev in E1. apply str_eqb_eq in E2.
+      f_equal. eapply NoDup_map_inj; [exact Hnd | exact E1 | exact H1 | congruence].
+    + exfalso. apply in_rev in H1. pose proof (find_none _ _ E sb H1) as Hf.
+      cbv beta in Hf. rewrite H2, str_eqb_refl in Hf. discriminate.
+Qed.
+
+Lemma is_contextual_iff o b : NoDup (map os_name (o_services o)) ->
+  (is_contextual o b = true <-> exists sb, In sb (o_services o) /\ os_name sb = b /\ os_scope sb = OScContextual).
+Proof.
+  intros Hnd. unfold is_contextual. split.
+  - destruct (find_service o b) as [sv|] eqn:E; [|discriminate].
+    apply (find_service_iff o b sv Hnd) in E. destruct E as [E1 E2].
+    destruct (os_scope sv) eqn:Es; try discriminate. intros _. exists sv. auto.
+  - intros (sb & H1 & H2 & H3). assert (E : find_service o b = Some sb) by (apply find_service_iff; auto).
+    rewrite E, H3. reflexivity.
+Qed.
+
+Theorem validate_scopes_none_uniq o : NoDup (map os_name (o_services o)) ->
+  (validate_scopes o = None <->
+   forall sa sb, In sa (o_services o) -> In sb (o_services o) ->
+                 os_scope sa = OScShared -> os_scope sb = OScContextual -> os_name sa <> os_name sb ->
+                 ~ clos_trans str (svc_dep o) (os_name sa) (os_name sb)).
+Proof.
+  intros Hnd. rewrite validate_scopes_none. split.
+  - intros H sa sb H1 H2 H3 H4 H5 H6.
+    assert (E : is_contextual o (os_name sb) = true) by (apply is_contextual_iff; [exact Hnd|]; exists sb; auto).
+    rewrite (H sa (os_name sb) H1 H3 H5 H6) in E. discriminate.
+  - intros H sa b H1 H2 H3 H4. destruct (is_contextual o b) eqn:E; [|reflexivity]. exfalso.
+    apply is_contextual_iff in E; [|exact Hnd]. destruct E as (sb & E1 & <- & E3).
+    exact (H sa sb H1 E1 H2 E3 H3 H4).
+Qed.
+
+Print Assumptions validate_scopes_spec.
+Print Assumptions validate_scopes_none_uniq.
+
+(** * Part 4 — the cycle rule *)
+
+Lemma path_src_bounded g a b : wf_graph g -> path g a b -> a < length (g_nodes g).
+Proof. intros Hwf H. destruct H as [b H|c b H _]; apply Hwf in H; tauto. Qed.
+
+(** the numeric graph has a closed walk iff the string relation has one *)
+Lemma acyclic_iff calls g : ginv calls g -> ((forall a, ~ path g a a) <-> forall x, ~ spath calls x x).
+Proof.
+  intros I. split.
+  - intros H x Hx. destruct (spath_to_path calls g x x I Hx) as (i & j & H1 & H2 & H3).
+    assert (i = j) by (eapply (gi_uniq _ _ I); eassumption). subst j. exact (H i H3).
+  - intros H a Ha. pose proof (path_src_bounded g a a (gi_wf _ _ I) Ha) as Hlt.
+    destruct (node_cases g a Hlt) as [(x & Hx)|Hh].
+    + apply (H x). eapply path_to_spath; try eassumption. left. exact Hx.
+    + destruct (gi_hid _ _ I a Hh) as (n & x & _ & Hxx & _). apply (H x). apply spath_step. exact Hxx.
+Qed.
+
+Lemma validate_circular_none_cycles o : validate_circular o = None <-> all_cycles (build_graph o) = [].
+Proof.
+  unfold validate_circular. rewrite gprefix_none. split.
+  - intros H. specialize (H _ (or_introl eq_refl)). unfold gjoin in H. rewrite gprefix_none in H.
+    unfold cycle_errors in H. destruct (all_cycles (build_graph o)) as [|c l]; [reflexivity|]. exfalso.
+    cbn [map] in H. specialize (H _ (or_introl eq_refl)). discriminate.
+  - intros H e [<-|[]]. unfold cycle_errors. rewrite H. reflexivity.
+Qed.
+
+(** C07: the validator accepts iff the string relation has no closed walk *)
+Theorem validate_circular_none o : validate_circular o = None <-> forall x, ~ spath (dep_calls o) x x.
+Proof.
+  rewrite validate_circular_none_cycles.
+  rewrite (all_cycles_nil_iff_acyclic _ (gi_wf _ _ (build_graph_ginv o))).
+  apply acyclic_iff. apply build_graph_ginv.
+Qed.
+
+(** a closed walk can be restarted at the successor of its first node *)
+Lemma spath_rot calls x : spath calls x x -> exists z, sedge calls x z /\ spath calls z z.
+Proof.
+  intros H. inversion H as [y Hxy|y z Hxy Hyx]; subst.
+  - exists x. auto.
+  - exists y. split; [exact Hxy|]. eapply spath_snoc; eassumption.
+Qed.
+
+Definition has_doc_cycle (o : output) : Prop :=
+  (exists a, clos_trans str (svc_dep o) a a) \/ (exists p, clos_trans str (param_dep o) p p).
+
+Lemma cyc_service o a : spath (dep_calls o) (id_service a) (id_service a) -> has_doc_cycle o.
+Proof. intros H. left. exists a. apply service_reach. exact H. Qed.
+
+Lemma cyc_param o p : spath (dep_calls o) (id_param p) (id_param p) -> has_doc_cycle o.
+Proof. intros H. right. exists p. apply param_reach_iff. exact H. Qed.
+
+Lemma cyc_tag o t : spath (dep_calls o) (id_tag t) (id_tag t) -> has_doc_cycle o.
+Proof.
+  intros H. apply spath_rot in H. destruct H as (z & H & Hz). apply dep_calls_dedge in H.
+  remember (id_tag t) as x eqn:Ex.
+  destruct H as [a t' H|a t' H|a b' H|a t' H|a p' H|j t' H|j b' H|j t' H|j p' H|p' q H]; id_simp.
+  eapply cyc_service. exact Hz.
+Qed.
+
+Lemma cyc_decorator o j : spath (dep_calls o) (id_decorator j) (id_decorator j) -> has_doc_cycle o.
+Proof.
+  intros H. apply spath_rot in H. destruct H as (z & H & Hz). apply dep_calls_dedge in H.
+  remember (id_decorator j) as x eqn:Ex.
+  destruct H as [a t' H|a t' H|a b' H|a t' H|a p' H|j' t' H|j' b' H|j' t' H|j' p' H|p' q H]; id_simp.
+  - eapply cyc_service. exact Hz.
+  - eapply cyc_tag. exact Hz.
+  - eapply cyc_param. exact Hz.
+Qed.
+
+Lemma cyc_decorate o t : spath (dep_calls o) (id_decorate t) (id_decorate t) -> has_doc_cycle o.
+Proof.
+  intros H. apply spath_rot in H. destruct H as (z & H & Hz). apply dep_calls_dedge in H.
+  remember (id_decorate t) as x eqn:Ex.
+  destruct H as [a t' H|a t' H|a b' H|a t' H|a p' H|j' t' H|j' b' H|j' t' H|j' p' H|p' q H]; id_simp.
+  eapply cyc_decorator. exact Hz.
+Qed.
+
+(** a cycle of the graph contains a service node or consists of param nodes only *)
+Lemma cyc_any o x : spath (dep_calls o) x x -> has_doc_cycle o.
+Proof.
+  intros H. destruct (spath_occurs _ _ _ H) as (z & Hz). apply dep_calls_dedge in Hz.
+  destruct Hz as [a t' Hz|a t' Hz|a b' Hz|a t' Hz|a p' Hz|j' t' Hz|j' b' Hz|j' t' Hz|j' p' Hz|p' q Hz].
+  - eapply cyc_tag; exact H.
+  - eapply cyc_service; exact H.
+  - eapply cyc_service; exact H.
+  - eapply cyc_service; exact H.
+  - eapply cyc_service; exact H.
+  - eapply cyc_decorate; exact H.
+  - eapply cyc_decorator; exact H.
+  - eapply cyc_decorator; exact H.
+  - eapply cyc_decorator; exact H.
+  - eapply cyc_param; exact H.
+Qed.
+
+Lemma doc_cycle_iff o : (exists x, spath (dep_calls o) x x) <-> has_doc_cycle o.
+Proof.
+  split.
+  - intros (x & H). eapply cyc_any. exact H.
+  - intros [(a & H)|(p & H)].
+    + exists (id_service a). apply service_reach. exact H.
+    + exists (id_param p). apply param_reach_iff. exact H.
+Qed.
+
+(** C07 in terms of the documented relations *)
+Theorem validate_circular_documented o :
+  validate_circular o = None <->
+  (forall a, ~ clos_trans str (svc_dep o) a a) /\ (forall p, ~ clos_trans str (param_dep o) p p).
+Proof.
+  rewrite validate_circular_none. split.
+  - intros H. split.
+    + intros a Ha. apply (H (id_service a)). apply service_reach. exact Ha.
+    + intros p Hp. apply (H (id_param p)). apply param_reach_iff. exact Hp.
+  - intros [H1 H2] x Hx. destruct (cyc_any o x Hx) as [(a & Ha)|(p & Hp)].
+    + exact (H1 a Ha).
+    + exact (H2 p Hp).
+Qed.
+
+(** ** the reported cycles: complete and sound *)
+
+Lemma cycle_ids_In g c x : In x (cycle_ids g c) <-> exists i, In i c /\ named g i x.
+Proof.
+  unfold cycle_ids. rewrite keep_some_In, in_map_iff. split.
+  - intros (i & H1 & H2). exists i. split; [exact H2 | apply node_name_named; exact H1].
+  - intros (i & H1 & H2). exists i. split; [apply node_name_named; exact H2 | exact H1].
+Qed.
+
+(** every node on a cycle is on a listed cycle *)
+Theorem cycle_shown o x : spath (dep_calls o) x x ->
+  exists c, In c (all_cycles (build_graph o)) /\ In x (cycle_ids (build_graph o) c).
+Proof.
+  intros H. pose proof (build_graph_ginv o) as I.
+  destruct (spath_to_path _ _ x x I H) as (i & j & H1 & H2 & H3).
+  assert (i = j) by (eapply (gi_uniq _ _ I); eassumption). subst j.
+  destruct (on_cycle_covered _ i (gi_wf _ _ I) H3) as (c & Hc & Hi).
+  exists c. split; [exact Hc|]. apply cycle_ids_In. exists i. auto.
+Qed.
+
+(** every listed cycle is a real one *)
+Theorem cycle_sound o c x : In c (all_cycles (build_graph o)) -> In x (cycle_ids (build_graph o) c) ->
+  spath (dep_calls o) x x.
+Proof.
+  intros Hc Hx. pose proof (build_graph_ginv o) as I.
+  apply cycle_ids_In in Hx. destruct Hx as (i & Hi & Hn).
+  assert (Hp : path (build_graph o) i i).
+  { apply (on_cycle_iff _ i (gi_wf _ _ I)). exists c. auto. }
+  eapply path_to_spath; try eassumption. left. exact Hn.
+Qed.
+
+Print Assumptions validate_circular_none.
+Print Assumptions validate_circular_documented.
+Print Assumptions cycle_shown.
+Print Assumptions cycle_sound.
+
+(** ** the messages: every node of a cycle appears, pretty-printed, in a message of [cycle_errors] *)
+
+(** the first node of a listed cycle (its smallest node) is never a hidden node *)
+Lemma listed_cycle_head_named calls g v rest :
+  ginv calls g -> is_cycle g (v :: rest ++ [v]) -> exists x, named g v x.
+Proof.
+  intros I (v' & rest' & Heq & Hnd & Hch & Hmin).
+  injection Heq as <- Heq. apply app_inv_tail in Heq. subst rest'.
+  assert (Hlt : v < length (g_nodes g)).
+  { destruct rest as [|r rest]; cbn [app] in Hch; apply chain_cons in Hch; destruct Hch as [He _];
+      apply (gi_wf _ _ I) in He; tauto. }
+  destruct (node_cases g v Hlt) as [Hx|Hh]; [exact Hx|]. exfalso.
+  destruct rest as [|r rest]; cbn [app] in Hch; apply chain_cons in Hch; destruct Hch as [He _].
+  - pose proof (gi_hlt _ _ I v v Hh He). lia.
+  - pose proof (gi_hlt _ _ I v r Hh He) as H1.
+    rewrite Forall_forall in Hmin. specialize (Hmin r (or_introl eq_refl)). lia.
+Qed.
+
+(** lists whose first and last element coincide *)
+Definition closed (l : list str) : Prop := exists a m, l = a :: m ++ [a].
+
+Lemma rot1_closed l : closed l -> closed (rot1 l) /\ forall x, In x (rot1 l) <-> In x l.
+Proof.
+  intros (a & m & ->). destruct m as [|b m]; cbn [app rot1].
+  - split; [exists a, []; reflexivity | tauto].
+  - split.
+    + exists b, (m ++ [a]). reflexivity.
+    + intros x. cbn [In]. rewrite !in_app_iff. cbn [In]. tauto.
+Qed.
+
+Lemma iter_rot1_closed n l : closed l -> closed (Nat.iter n rot1 l) /\ forall x, In x (Nat.iter n rot1 l) <-> In x l.
+Proof.
+  intros Hc. induction n as [|n [IH1 IH2]]; cbn [Nat.iter nat_rect].
+  - split; [exact Hc | tauto].
+  - destruct (rot1_closed _ IH1) as [H1 H2]. split; [exact H1|].
+    intros x. rewrite H2. apply IH2.
+Qed.
+
+Lemma normalize_cycle_In l x : closed l -> (In x (normalize_cycle l) <-> In x l).
+Proof. intros Hc. unfold normalize_cycle. apply iter_rot1_closed. exact Hc. Qed.
+
+Lemma listed_cycle_ids_closed calls g c : ginv calls g -> In c (all_cycles g) -> closed (cycle_ids g c).
+Proof.
+  intros I Hc. apply all_cycles_sound in Hc. pose proof Hc as (v & rest & -> & _).
+  destruct (listed_cycle_head_named calls g v rest I Hc) as (x & Hx).
+  apply node_name_named in Hx. unfold cycle_ids.
+  cbn [map]. rewrite map_app. cbn [map]. rewrite Hx. cbn [keep_some]. rewrite keep_some_app. cbn [keep_some].
+  exists x, (keep_some (map (node_name g) rest)). reflexivity.
+Qed.
+
+Lemma join_In_sub sep : forall l y, In y l -> exists u v, join sep l = u ++ y ++ v.
+Proof.
+  induction l as [|a l IH]; intros y Hy; [destruct Hy|].
+  destruct l as [|b l].
+  - destruct Hy as [->|[]]. exists [], []. cbn [join app]. rewrite app_nil_r. reflexivity.
+  - change (join sep (a :: b :: l)) with (a ++ sep ++ join sep (b :: l)).
+    destruct Hy as [->|Hy].
+    + exists [], (sep ++ join sep (b :: l)). reflexivity.
+    + destruct (IH y Hy) as (u & v & ->). exists (a ++ sep ++ u), v. rewrite <- !app_assoc. reflexivity.
+Qed.
+
+(** every node [x] on a cycle appears in the (normalised) id list of a reported message ... *)
+Theorem cycle_error_shown o x : spath (dep_calls o) x x ->
+  exists ids, In x ids /\ In (join (s " -> ") (map pretty ids)) (cycle_errors o).
+Proof.
+  intros H. destruct (cycle_shown o x H) as (c & Hc & Hx).
+  exists (normalize_cycle (cycle_ids (build_graph o) c)). split.
+  - apply normalize_cycle_In; [|exact Hx].
+    eapply listed_cycle_ids_closed; [apply build_graph_ginv | exact Hc].
+  - unfold cycle_errors.
+    apply (in_map (fun c => join (s " -> ") (map pretty (normalize_cycle (cycle_ids (build_graph o) c))))).
+    exact Hc.
+Qed.
+
+(** ... hence [pretty x] is a substring of that message *)
+Corollary cycle_error_shown_sub o x : spath (dep_calls o) x x ->
+  exists m u v, In m (cycle_errors o) /\ m = u ++ pretty x ++ v.
+Proof.
+  intros H. destruct (cycle_error_shown o x H) as (ids & Hx & Hm).
+  destruct (join_In_sub (s " -> ") (map pretty ids) (pretty x) (in_map pretty _ _ Hx)) as (u & v & E).
+  exists (join (s " -> ") (map pretty ids)), u, v. auto.
+Qed.
+
+(** and conversely every id mentioned by a message lies on a cycle *)
+Theorem cycle_error_sound o m : In m (cycle_errors o) ->
+  exists ids, m = join (s " -> ") (map pretty ids) /\ ids <> [] /\ forall x, In x ids -> spath (dep_calls o) x x.
+Proof.
+  unfold cycle_errors. intros H. apply in_map_iff in H. destruct H as (c & <- & Hc).
+  pose proof (listed_cycle_ids_closed _ _ c (build_graph_ginv o) Hc) as Hcl.
+  exists (normalize_cycle (cycle_ids (build_graph o) c)). split; [reflexivity|]. split.
+  - destruct Hcl as (a & l & E). intros Hn.
+    assert (Ha : In a (normalize_cycle (cycle_ids (build_graph o) c))).
+    { apply normalize_cycle_In; [exists a, l; exact E | rewrite E; left; reflexivity]. }
+    rewrite Hn in Ha. destruct Ha.
+  - intros x Hx. apply (normalize_cycle_In _ x Hcl) in Hx. eapply cycle_sound; eassumption.
+Qed.
+
+Print Assumptions cycle_error_shown_sub.
+Print Assumptions cycle_error_sound.
